@@ -340,6 +340,9 @@ Variable validity_offset : Z.
 Variable cert_expiry : Z.
 (* is the conversion of the upstream common name wrapped in try/except ValueError *)
 Variable cn_guarded : bool.
+(* subjectAltName criticality: true = [critical=not subject] (critical iff the subject is empty),
+   false = [critical=not is_valid_commonname] (critical iff there is no common name) *)
+Variable crit_by_subject : bool.
 
 (* encodings.idna.Codec.encode, ASCII fast path *)
 Definition idna_ascii (s : bytes) : option bytes :=
@@ -419,7 +422,8 @@ Definition dummy_cert (issuer : ca) (now_local : Z) (n : names) : res cert :=
              (if valid_cn then n_cn n else None)
              (n_org n)
              (map wire_gname (n_alt n))
-             (negb valid_cn)
+             (negb (if crit_by_subject then valid_cn || (match n_org n with Some _ => true | None => false end)
+                    else valid_cn))
              [EKU_SERVER_AUTH]
              (now_local + validity_offset)%Z (now_local + validity_offset + cert_expiry)%Z
              (match ca_ski issuer with Some s => s | None => ca_key_sha1 issuer end)
